@@ -449,14 +449,20 @@ fn limits(c: usize, total: usize) -> Vec<Option<usize>> {
 pub fn cases(quick: bool) -> Vec<Case> {
     let mut v = Vec::new();
     for ty in 0..N_BUF_TYPES {
-        for len in [0usize, 1, 2, 3, 8, 16] {
+        let lens: Vec<usize> = if quick { vec![0usize, 1, 2, 3, 8, 16] } else { (0..=24).chain([64, 255, 256, 4096]).collect() };
+        for len in lens {
             for limit in limits(len, len) {
                 v.push(Case::Buf { ty, len, limit });
             }
         }
     }
-    for cap in [0usize, 1, 2, 3, 8, 64] {
-        for fill in [0, 1, cap / 2, cap] {
+    let caps: Vec<usize> = if quick { vec![0usize, 1, 2, 3, 8, 64] } else { (0..=24).chain([64, 255, 4096]).collect() };
+    for cap in caps {
+        let fills: Vec<usize> = if quick || cap > 24 { vec![0, 1, cap / 2, cap] } else { (0..=cap).collect() };
+        let mut fills = fills;
+        fills.sort();
+        fills.dedup();
+        for fill in fills {
             if fill > cap {
                 continue;
             }
@@ -466,13 +472,33 @@ pub fn cases(quick: bool) -> Vec<Case> {
         }
     }
     // Arrays and tuples, every arity, mixed sizes incl. zero-size members.
-    let patterns: &[&[usize]] = &[&[3, 0, 2, 1, 0, 4, 2, 1], &[0, 0, 1, 0, 3, 0, 0, 2], &[2, 2, 2, 2, 2, 2, 2, 2], &[0, 0, 0, 0, 0, 0, 0, 0], &[1, 3, 0, 0, 5, 1, 0, 8]];
+    let fixed: &[&[usize]] = &[&[3, 0, 2, 1, 0, 4, 2, 1], &[0, 0, 1, 0, 3, 0, 0, 2], &[2, 2, 2, 2, 2, 2, 2, 2], &[0, 0, 0, 0, 0, 0, 0, 0], &[1, 3, 0, 0, 5, 1, 0, 8]];
+    let mut patterns: Vec<(usize, Vec<usize>)> = Vec::new();
     for n in 1..=8usize {
-        for (pi, p) in patterns.iter().enumerate() {
+        for (pi, p) in fixed.iter().enumerate() {
             if quick && n > 4 && pi > 2 {
                 continue;
             }
-            let lens: Vec<usize> = p[..n].to_vec();
+            patterns.push((n, p[..n].to_vec()));
+        }
+    }
+    if !quick {
+        // Every length vector over {0, 1, 2, 5} for up to four members.
+        for n in 1..=4usize {
+            for code in 0..4usize.pow(n as u32) {
+                let mut c = code;
+                let mut p = Vec::new();
+                for _ in 0..n {
+                    p.push([0usize, 1, 2, 5][c % 4]);
+                    c /= 4;
+                }
+                patterns.push((n, p));
+            }
+        }
+    }
+    {
+        for (n, p) in patterns {
+            let lens: Vec<usize> = p;
             let total: usize = lens.iter().sum();
             let mut ls = limits(lens[0], total);
             // Limits on every buffer boundary and one inside every buffer.
